@@ -54,7 +54,14 @@ func (f *fetcher) handleUpstream304(req *http.Request, key cache.CacheKey) (cach
 
 	slog.Debug("Successfully revalidated cache metadata", "url", req.URL, "key", key)
 	verifhook.At("fetch.304.renewed", key.Hex)
-	return f.cache.Get(key)
+
+	// The entry can still be evicted between the renewal above and this read. That is trouble on the cache
+	// side, like a failed renewal: the caller then fetches the resource directly instead of answering 502.
+	cached, err = f.cache.Get(key)
+	if err != nil {
+		return nil, fmt.Errorf("%w: %v", ErrUpdateCacheMetadata, err)
+	}
+	return cached, nil
 }
 
 func (f *fetcher) handleUpstream200(req *http.Request, resp *http.Response, key cache.CacheKey, upstreamHd *headers.HeaderDirectives) (cached *cache.Entry[cachedRequestInfo], err error) {
